@@ -3,11 +3,11 @@
 package c12
 
 import (
-	"math/rand"
 	"context"
 	"fmt"
 	"io"
 	"math"
+	"math/rand"
 	"os"
 	"path/filepath"
 	"sort"
@@ -54,7 +54,9 @@ func bytesOfLen(n int) []byte {
 
 func vec(xs ...float32) []float32 { return xs }
 
-func drain(st interface{ Recv() (*pb.SearchResultItem, error) }, err error) {
+func drain(st interface {
+	Recv() (*pb.SearchResultItem, error)
+}, err error) {
 	if err != nil {
 		return
 	}
@@ -68,19 +70,45 @@ func drain(st interface{ Recv() (*pb.SearchResultItem, error) }, err error) {
 func classes() []class {
 	var cs []class
 	add := func(name string, run func(e *env)) { cs = append(cs, class{name: name, run: run}) }
-	addSp := func(name string, sp pb.Space, run func(e *env)) { cs = append(cs, class{name: name, space: sp, run: run}) }
+	addSp := func(name string, sp pb.Space, run func(e *env)) {
+		cs = append(cs, class{name: name, space: sp, run: run})
+	}
 	idLens := []int{0, 15, 17, 1000}
 	// ---- malformed / truncated ids on every RPC that takes one
 	for _, n := range idLens {
 		n := n
 		bad := bytesOfLen(n)
-		add(fmt.Sprintf("DatasetManager.Get:dataset-id-len-%d", n), func(e *env) { c, f := e.ctx(); defer f(); e.dm.Get(c, &pb.GetDatasetRequest{DatasetId: bad, WithSize: true}) })
+		add(fmt.Sprintf("DatasetManager.Get:dataset-id-len-%d", n), func(e *env) {
+			c, f := e.ctx()
+			defer f()
+			e.dm.Get(c, &pb.GetDatasetRequest{DatasetId: bad, WithSize: true})
+		})
 		add(fmt.Sprintf("DatasetManager.Delete:id-len-%d", n), func(e *env) { c, f := e.ctx(); defer f(); e.dm.Delete(c, &pb.UUIDRequest{Id: bad}) })
-		add(fmt.Sprintf("DatasetManager.GetDatasetSize:dataset-id-len-%d", n), func(e *env) { c, f := e.ctx(); defer f(); e.dm.GetDatasetSize(c, &pb.GetDatasetRequest{DatasetId: bad}) })
-		add(fmt.Sprintf("DataManager.Insert:dataset-id-len-%d", n), func(e *env) { c, f := e.ctx(); defer f(); e.data.Insert(c, &pb.InsertRequest{DatasetId: bad, Id: hx.Id(1).Bytes(), Value: vec(1, 2, 3, 4)}) })
-		add(fmt.Sprintf("DataManager.Insert:id-len-%d", n), func(e *env) { c, f := e.ctx(); defer f(); e.data.Insert(c, &pb.InsertRequest{DatasetId: e.dsId, Id: bad, Value: vec(1, 2, 3, 4)}) })
-		add(fmt.Sprintf("DataManager.Update:id-len-%d", n), func(e *env) { c, f := e.ctx(); defer f(); e.data.Update(c, &pb.UpdateRequest{DatasetId: e.dsId, Id: bad, Value: vec(1, 2, 3, 4)}) })
-		add(fmt.Sprintf("DataManager.Remove:id-len-%d", n), func(e *env) { c, f := e.ctx(); defer f(); e.data.Remove(c, &pb.RemoveRequest{DatasetId: e.dsId, Id: bad}) })
+		add(fmt.Sprintf("DatasetManager.GetDatasetSize:dataset-id-len-%d", n), func(e *env) {
+			c, f := e.ctx()
+			defer f()
+			e.dm.GetDatasetSize(c, &pb.GetDatasetRequest{DatasetId: bad})
+		})
+		add(fmt.Sprintf("DataManager.Insert:dataset-id-len-%d", n), func(e *env) {
+			c, f := e.ctx()
+			defer f()
+			e.data.Insert(c, &pb.InsertRequest{DatasetId: bad, Id: hx.Id(1).Bytes(), Value: vec(1, 2, 3, 4)})
+		})
+		add(fmt.Sprintf("DataManager.Insert:id-len-%d", n), func(e *env) {
+			c, f := e.ctx()
+			defer f()
+			e.data.Insert(c, &pb.InsertRequest{DatasetId: e.dsId, Id: bad, Value: vec(1, 2, 3, 4)})
+		})
+		add(fmt.Sprintf("DataManager.Update:id-len-%d", n), func(e *env) {
+			c, f := e.ctx()
+			defer f()
+			e.data.Update(c, &pb.UpdateRequest{DatasetId: e.dsId, Id: bad, Value: vec(1, 2, 3, 4)})
+		})
+		add(fmt.Sprintf("DataManager.Remove:id-len-%d", n), func(e *env) {
+			c, f := e.ctx()
+			defer f()
+			e.data.Remove(c, &pb.RemoveRequest{DatasetId: e.dsId, Id: bad})
+		})
 		for _, kind := range []string{"BatchInsert", "BatchUpdate", "BatchRemove"} {
 			kind := kind
 			add(fmt.Sprintf("DataManager.%s:item-id-len-%d", kind, n), func(e *env) {
@@ -115,8 +143,16 @@ func classes() []class {
 			defer f()
 			e.data.PartitionBatchInsert(c, &pb.PartitionBatchRequest{DatasetId: e.dsId, PartitionId: bad, Items: []*pb.BatchItem{{Id: hx.Id(501).Bytes(), Value: vec(1, 2, 3, 4)}}})
 		})
-		add(fmt.Sprintf("DataManager.PartitionInfo:partition-id-len-%d", n), func(e *env) { c, f := e.ctx(); defer f(); e.data.PartitionInfo(c, &pb.PartitionInfoRequest{DatasetId: e.dsId, PartitionId: bad}) })
-		add(fmt.Sprintf("Search.Search:dataset-id-len-%d", n), func(e *env) { c, f := e.ctx(); defer f(); drain(e.srch.Search(c, &pb.SearchRequest{DatasetId: bad, Query: vec(1, 2, 3, 4), K: 3})) })
+		add(fmt.Sprintf("DataManager.PartitionInfo:partition-id-len-%d", n), func(e *env) {
+			c, f := e.ctx()
+			defer f()
+			e.data.PartitionInfo(c, &pb.PartitionInfoRequest{DatasetId: e.dsId, PartitionId: bad})
+		})
+		add(fmt.Sprintf("Search.Search:dataset-id-len-%d", n), func(e *env) {
+			c, f := e.ctx()
+			defer f()
+			drain(e.srch.Search(c, &pb.SearchRequest{DatasetId: bad, Query: vec(1, 2, 3, 4), K: 3}))
+		})
 		add(fmt.Sprintf("Search.SearchPartitions:partition-id-len-%d", n), func(e *env) {
 			c, f := e.ctx()
 			defer f()
@@ -124,8 +160,16 @@ func classes() []class {
 		})
 	}
 	unknown := hx.Id(999999).Bytes()
-	add("DataManager.Insert:unknown-dataset", func(e *env) { c, f := e.ctx(); defer f(); e.data.Insert(c, &pb.InsertRequest{DatasetId: unknown, Id: hx.Id(1).Bytes(), Value: vec(1, 2, 3, 4)}) })
-	add("Search.Search:unknown-dataset", func(e *env) { c, f := e.ctx(); defer f(); drain(e.srch.Search(c, &pb.SearchRequest{DatasetId: unknown, Query: vec(1, 2, 3, 4), K: 3})) })
+	add("DataManager.Insert:unknown-dataset", func(e *env) {
+		c, f := e.ctx()
+		defer f()
+		e.data.Insert(c, &pb.InsertRequest{DatasetId: unknown, Id: hx.Id(1).Bytes(), Value: vec(1, 2, 3, 4)})
+	})
+	add("Search.Search:unknown-dataset", func(e *env) {
+		c, f := e.ctx()
+		defer f()
+		drain(e.srch.Search(c, &pb.SearchRequest{DatasetId: unknown, Query: vec(1, 2, 3, 4), K: 3}))
+	})
 	add("DataManager.PartitionBatchInsert:unknown-partition", func(e *env) {
 		c, f := e.ctx()
 		defer f()
@@ -188,10 +232,26 @@ func classes() []class {
 		})
 	}
 	// ---- vectors and dimensions
-	add("DataManager.Insert:empty-vector", func(e *env) { c, f := e.ctx(); defer f(); e.data.Insert(c, &pb.InsertRequest{DatasetId: e.dsId, Id: hx.Id(600).Bytes()}) })
-	add("DataManager.Insert:wrong-dimension", func(e *env) { c, f := e.ctx(); defer f(); e.data.Insert(c, &pb.InsertRequest{DatasetId: e.dsId, Id: hx.Id(601).Bytes(), Value: vec(1, 2)}) })
-	add("DataManager.Update:wrong-dimension", func(e *env) { c, f := e.ctx(); defer f(); e.data.Update(c, &pb.UpdateRequest{DatasetId: e.dsId, Id: e.items[0].Bytes(), Value: vec(1, 2, 3, 4, 5)}) })
-	add("DataManager.Update:no-metadata", func(e *env) { c, f := e.ctx(); defer f(); e.data.Update(c, &pb.UpdateRequest{DatasetId: e.dsId, Id: e.items[0].Bytes(), Value: vec(1, 2, 3, 4)}) })
+	add("DataManager.Insert:empty-vector", func(e *env) {
+		c, f := e.ctx()
+		defer f()
+		e.data.Insert(c, &pb.InsertRequest{DatasetId: e.dsId, Id: hx.Id(600).Bytes()})
+	})
+	add("DataManager.Insert:wrong-dimension", func(e *env) {
+		c, f := e.ctx()
+		defer f()
+		e.data.Insert(c, &pb.InsertRequest{DatasetId: e.dsId, Id: hx.Id(601).Bytes(), Value: vec(1, 2)})
+	})
+	add("DataManager.Update:wrong-dimension", func(e *env) {
+		c, f := e.ctx()
+		defer f()
+		e.data.Update(c, &pb.UpdateRequest{DatasetId: e.dsId, Id: e.items[0].Bytes(), Value: vec(1, 2, 3, 4, 5)})
+	})
+	add("DataManager.Update:no-metadata", func(e *env) {
+		c, f := e.ctx()
+		defer f()
+		e.data.Update(c, &pb.UpdateRequest{DatasetId: e.dsId, Id: e.items[0].Bytes(), Value: vec(1, 2, 3, 4)})
+	})
 	add("DataManager.BatchUpdate:no-metadata", func(e *env) {
 		c, f := e.ctx()
 		defer f()
@@ -294,10 +354,26 @@ func classes() []class {
 		})
 	}
 	// ---- k
-	add("Search.Search:k-0", func(e *env) { c, f := e.ctx(); defer f(); drain(e.srch.Search(c, &pb.SearchRequest{DatasetId: e.dsId, Query: vec(1, 2, 3, 4), K: 0})) })
-	add("Search.Search:k-2^32-1", func(e *env) { c, f := e.ctx(); defer f(); drain(e.srch.Search(c, &pb.SearchRequest{DatasetId: e.dsId, Query: vec(1, 2, 3, 4), K: math.MaxUint32})) })
-	add("Search.Search:k-2^20", func(e *env) { c, f := e.ctx(); defer f(); drain(e.srch.Search(c, &pb.SearchRequest{DatasetId: e.dsId, Query: vec(1, 2, 3, 4), K: 1 << 20})) })
-	add("Search.Search:empty-query", func(e *env) { c, f := e.ctx(); defer f(); drain(e.srch.Search(c, &pb.SearchRequest{DatasetId: e.dsId, K: 3})) })
+	add("Search.Search:k-0", func(e *env) {
+		c, f := e.ctx()
+		defer f()
+		drain(e.srch.Search(c, &pb.SearchRequest{DatasetId: e.dsId, Query: vec(1, 2, 3, 4), K: 0}))
+	})
+	add("Search.Search:k-2^32-1", func(e *env) {
+		c, f := e.ctx()
+		defer f()
+		drain(e.srch.Search(c, &pb.SearchRequest{DatasetId: e.dsId, Query: vec(1, 2, 3, 4), K: math.MaxUint32}))
+	})
+	add("Search.Search:k-2^20", func(e *env) {
+		c, f := e.ctx()
+		defer f()
+		drain(e.srch.Search(c, &pb.SearchRequest{DatasetId: e.dsId, Query: vec(1, 2, 3, 4), K: 1 << 20}))
+	})
+	add("Search.Search:empty-query", func(e *env) {
+		c, f := e.ctx()
+		defer f()
+		drain(e.srch.Search(c, &pb.SearchRequest{DatasetId: e.dsId, K: 3}))
+	})
 	add("Search.SearchPartitions:wrong-dimension-query", func(e *env) {
 		c, f := e.ctx()
 		defer f()
@@ -311,8 +387,16 @@ func classes() []class {
 	})
 	// ---- metadata
 	big := func(n int, ch string) string { return strings.Repeat(ch, n) }
-	add("DataManager.Insert:metadata-key-256-bytes", func(e *env) { c, f := e.ctx(); defer f(); e.data.Insert(c, &pb.InsertRequest{DatasetId: e.dsId, Id: hx.Id(800).Bytes(), Value: vec(1, 2, 3, 4), Metadata: map[string]string{big(256, "k"): "v"}}) })
-	add("DataManager.Insert:metadata-value-65536-bytes", func(e *env) { c, f := e.ctx(); defer f(); e.data.Insert(c, &pb.InsertRequest{DatasetId: e.dsId, Id: hx.Id(801).Bytes(), Value: vec(1, 2, 3, 4), Metadata: map[string]string{"k": big(65536, "v")}}) })
+	add("DataManager.Insert:metadata-key-256-bytes", func(e *env) {
+		c, f := e.ctx()
+		defer f()
+		e.data.Insert(c, &pb.InsertRequest{DatasetId: e.dsId, Id: hx.Id(800).Bytes(), Value: vec(1, 2, 3, 4), Metadata: map[string]string{big(256, "k"): "v"}})
+	})
+	add("DataManager.Insert:metadata-value-65536-bytes", func(e *env) {
+		c, f := e.ctx()
+		defer f()
+		e.data.Insert(c, &pb.InsertRequest{DatasetId: e.dsId, Id: hx.Id(801).Bytes(), Value: vec(1, 2, 3, 4), Metadata: map[string]string{"k": big(65536, "v")}})
+	})
 	add("DataManager.Insert:metadata-70000-pairs", func(e *env) {
 		c, f := context.WithTimeout(context.Background(), 20*time.Second)
 		defer f()
@@ -322,7 +406,11 @@ func classes() []class {
 		}
 		e.data.Insert(c, &pb.InsertRequest{DatasetId: e.dsId, Id: hx.Id(802).Bytes(), Value: vec(1, 2, 3, 4), Metadata: m})
 	})
-	add("DataManager.Insert:metadata-non-utf8", func(e *env) { c, f := e.ctx(); defer f(); e.data.Insert(c, &pb.InsertRequest{DatasetId: e.dsId, Id: hx.Id(803).Bytes(), Value: vec(1, 2, 3, 4), Metadata: map[string]string{"\xff\xfe": "\x80"}}) })
+	add("DataManager.Insert:metadata-non-utf8", func(e *env) {
+		c, f := e.ctx()
+		defer f()
+		e.data.Insert(c, &pb.InsertRequest{DatasetId: e.dsId, Id: hx.Id(803).Bytes(), Value: vec(1, 2, 3, 4), Metadata: map[string]string{"\xff\xfe": "\x80"}})
+	})
 	// ---- batches
 	for _, n := range []int{0, 100, 101, 10000} {
 		n := n
@@ -363,6 +451,41 @@ func classes() []class {
 		}
 		for i := 0; i < 4; i++ {
 			e.data.Remove(c, &pb.RemoveRequest{DatasetId: e.dsId, Id: hx.Id(950 + i).Bytes()})
+		}
+	})
+	// a stored item that no search can reach (nobody links to it any more: pruning is one-sided) and a k that is not
+	// below the number of stored items
+	add("Search.Search:k-not-below-the-item-count-with-an-unreachable-item", func(e *env) {
+		c, f := e.ctx()
+		defer f()
+		// a dataset of its own: one partition, 32 dimensions. The second item is an outlier; fifteen items next to the
+		// first and seventeen on axes of their own fill every neighbour list the outlier was in until nobody links to
+		// it any more
+		d, err := e.dm.Create(c, &pb.Dataset{Dimension: 32, PartitionCount: 1, ReplicationFactor: 1, Space: pb.Space_Euclidean})
+		if err != nil {
+			return
+		}
+		axis := func(a int, v float32) []float32 {
+			x := make([]float32, 32)
+			x[a] = v
+			return x
+		}
+		n := 0
+		put := func(v []float32) {
+			e.data.Insert(c, &pb.InsertRequest{DatasetId: d.Id, Id: hx.Id(3000 + n).Bytes(), Value: v})
+			n++
+		}
+		put(axis(30, 0))
+		put(axis(31, 1000))
+		for i := 1; i <= 15; i++ {
+			put(axis(30, 0.001*float32(i)))
+		}
+		for j := 0; j < 17; j++ {
+			put(axis(j, 1))
+		}
+		for _, k := range []uint32{10, 33, 34, 35, 100, 1000} {
+			drain(e.srch.Search(c, &pb.SearchRequest{DatasetId: d.Id, Query: axis(30, 0), K: k}))
+			drain(e.srch.SearchPartitions(c, &pb.SearchPartitionsRequest{DatasetId: d.Id, PartitionIds: [][]byte{d.Partitions[0].Id}, Query: axis(30, 0), K: k}))
 		}
 	})
 	// the batch item's level field is part of the public message: whatever a client puts there
